@@ -90,6 +90,22 @@ func judge(k kase) (key, what, domain string, st stats) {
 		return "heap-extent-grows-with-N", fmt.Sprintf("highest heap address handed out: %d after %d iterations, %d after %d iterations (one iteration allocates %d bytes; allowed slack %d)",
 			r1.HighWater, k.N1, r2.HighWater, k.N2, perIterBytes, slack), "", st
 	}
+	// Slow linear growth (a few bytes lost per iteration stays below any slack that
+	// tolerates warm-up): if the extent grew at all between N1 and N2, run a third
+	// length and demand that growth does not continue at ≥ 8 bytes per iteration.
+	if r2.HighWater > r1.HighWater {
+		n3 := k.N2 + (k.N2 - k.N1)
+		r3, d := runN(k, n3)
+		if d != "" {
+			return "", "", d, st
+		}
+		g1, g2 := int64(r2.HighWater)-int64(r1.HighWater), int64(r3.HighWater)-int64(r2.HighWater)
+		per := int64(k.N2-k.N1) * 8
+		if g1 >= per && g2 >= per {
+			return "heap-extent-grows-linearly", fmt.Sprintf("highest heap address handed out keeps growing although live blocks stay constant: %d → %d → %d after %d / %d / %d iterations (+%d, +%d bytes: blocks are lost inside the allocator)",
+				r1.HighWater, r2.HighWater, r3.HighWater, k.N1, k.N2, n3, g1, g2), "", st
+		}
+	}
 	return "", "", "", st
 }
 
